@@ -1310,8 +1310,11 @@ def solve_ivp(fun, t_span, y0, method='RK45', t_eval=None, dense_output=False,
         y_res = D.ar_numpy.transpose(ode_system.y, axes=[*range(1, len(ode_system.y.shape)), 0])
     else:
         t_eval = D.ar_numpy.sort(t_eval)
-        if t_eval[0] < t_span[0] or t_eval[-1] > t_span[1]:
+        if t_eval[0] < min(t_span[0], t_span[1]) or t_eval[-1] > max(t_span[0], t_span[1]):
             raise ValueError(f"Expected `t_eval` to be in the range [{t_span[0]}, {t_span[1]}]")
+        if t_span[1] < t_span[0]:
+            # a backward span visits its output times in decreasing order
+            t_eval = D.ar_numpy.flip(t_eval, (0,))
         t_res = []
         y_res = []
         for t in t_eval:
